@@ -18,6 +18,7 @@ class CmpProp(Prop):
     """shared by C01 / C06 / C02: builds types, runs them against the real macro, compares with the
     Python reference of the documented rule"""
     trait_pool = CMP4
+    weird_order_type = False     # C01 only: a field type with a non-antisymmetric order (the other properties assume lawful fields)
     observe = ('eq', 'pcmp', 'cmp')
     batch = 'c01'
 
@@ -31,7 +32,7 @@ class CmpProp(Prop):
         if ftype == 'F':
             # a function pointer: compared, ordered and hashed through one `#[ord(key = ..)]` for every trait
             return {'ord': rng.choice(['key', 'key+reverse'])}
-        if ftype in ('P', 'A'):
+        if ftype in ('P', 'A', 'W'):
             c = {'ord': rng.choice(['-', '-', 'reverse']), 'partial_ord': rng.choice(['-', 'reverse', '-']),
                  'hash': rng.choice(['-', '-', 'ignore'])}
             c = G.relevant_combo(traits, c)
@@ -64,6 +65,8 @@ class CmpProp(Prop):
                 fl = []
                 for _ in range(nf):
                     ft = 'P' if (allow_p and rng.random() < 0.15) else 'A' if rng.random() < 0.1 else 'F' if rng.random() < 0.08 else 'u8'
+                    if self.weird_order_type and rng.random() < 0.12:
+                        ft = 'W'
                     fl.append((ft, self.pick_combo(rng, traits, ft, pool)))
                 variants.append((rng.random() < 0.5, fl))
             mode = 'attr' if rng.random() < 0.5 else 'derive'
@@ -199,6 +202,7 @@ class CmpProp(Prop):
 
 class C01(CmpProp):
     pid = 'C01'
+    weird_order_type = True
     tag = 'bodies of the PartialEq / PartialOrd / Ord (and Eq) impls'
     rule = ('struct / enum (1-3 variants, 0-4 fields of u8 or the partially ordered P) x every non-empty subset of '
             '{Ord, PartialOrd, Eq, PartialEq} x both entry points; each field carries a combination drawn from the '
